@@ -897,6 +897,15 @@ func (x *Exec) ifaceContract(c *ssa.CallCommon) *FuncContract {
 	if fc, ok := x.eng.cs.Funcs["("+pkg+"."+n.Obj().Name()+")."+c.Method.Name()]; ok {
 		return fc
 	}
+	// an interface of another package, contracted in a using package's file as (pkgname.Iface).Method
+	if n.Obj().Pkg() != nil {
+		suffix := "::(" + n.Obj().Pkg().Name() + "." + n.Obj().Name() + ")." + c.Method.Name()
+		for _, k := range x.eng.cs.Order {
+			if strings.HasSuffix(k, suffix) {
+				return x.eng.cs.Funcs[k]
+			}
+		}
+	}
 	return nil
 }
 
